@@ -8,11 +8,15 @@ import (
 	"fmt"
 	"os"
 	"path/filepath"
+	"regexp"
+	"sort"
 	"strings"
 	"testing"
+	"time"
 
 	"golang.org/x/telemetry/internal/config"
 	tcounter "golang.org/x/telemetry/internal/counter"
+	"golang.org/x/telemetry/internal/telemetry"
 	"golang.org/x/telemetry/internal/verifref"
 	"golang.org/x/telemetry/internal/verifrt"
 )
@@ -37,6 +41,7 @@ type c11Case struct {
 	Files  []c11File              `json:"files"`
 	Posted []string               `json:"posted"`
 	Kept   []c11Kept              `json:"kept"`
+	Week   string                 `json:"week"`
 }
 
 func TestVerifC11Viewer(t *testing.T) {
@@ -84,6 +89,27 @@ func TestVerifC11Viewer(t *testing.T) {
 			if noData == kept.Emitted {
 				res.Violate("viewer-dataset-verdict", fmt.Sprintf("viewer says noDataUploaded=%v for build %+v, but the uploader emitted a program report=%v (summary: %q)", noData, file.Build, kept.Emitted, sum), rp)
 				continue
+			}
+			// the same data as a local report (what the viewer shows once the week is
+			// over): the verdicts must be the ones given for the counter file
+			if wk, err := time.Parse("2006-01-02", cs.Week); err == nil {
+				pr := &telemetry.ProgramReport{Program: file.Build.Program, Version: file.Build.Version, GoVersion: file.Build.GoVersion, GOOS: file.Build.GOOS, GOARCH: file.Build.GOARCH,
+					Counters: map[string]int64{}, Stacks: map[string]int64{}}
+				for full, v := range file.Counts {
+					if strings.Contains(full, "\n") {
+						pr.Stacks[full] = int64(v)
+					} else {
+						pr.Counters[full] = int64(v)
+					}
+				}
+				tr, err := newTelemetryReport(&telemetry.Report{Week: wk.Format("2006-01-02"), X: 0.5, Programs: []*telemetry.ProgramReport{pr}}, cfg)
+				if err == nil && len(tr.Programs) == 1 {
+					res.Hit("report-view")
+					rsum := string(tr.Programs[0].Summary)
+					if a, b := c11Listed(sum), c11Listed(rsum); a != b {
+						res.Violate("viewer-report-vs-file", fmt.Sprintf("build %+v: shown as a pending counter file the viewer lists as excluded [%s] (no data uploaded: %v), shown as a local report of the same data it lists [%s] (summaries %q / %q)", file.Build, a, noData, b, sum, rsum), rp)
+					}
+				}
 			}
 			if !kept.Emitted {
 				res.Hit("dataset-excluded")
@@ -188,4 +214,21 @@ func countPrefix(m map[string]uint64, first string) int {
 func htmlEsc(s string) string {
 	r := strings.NewReplacer("&", "&amp;", "<", "&lt;", ">", "&gt;", `"`, "&#34;", "'", "&#39;")
 	return r.Replace(s)
+}
+
+var c11CodeRE = regexp.MustCompile(`<code>(.*?)</code>`)
+
+// c11Listed is the verdict part of a summary: whether the whole data set is
+// excluded, and the sorted set of names listed as excluded.
+func c11Listed(sum string) string {
+	var names []string
+	for _, m := range c11CodeRE.FindAllStringSubmatch(sum, -1) {
+		names = append(names, m[1])
+	}
+	sort.Strings(names)
+	out := strings.Join(names, " | ")
+	if strings.Contains(sum, "No data from this set would be uploaded") {
+		out = "NO DATA; " + out
+	}
+	return out
 }
